@@ -150,7 +150,9 @@ class C17(Property):
           (1, 0), (1, 1)])
       spec = {"kind": kind, "len": ln, "chunk_size": cs, "channels": ch,
               "dfmt": dfmt, "use_global": bool(gchunk) and
-              bool(W.choose("useg", 2))}
+              bool(W.choose("useg", 2)),
+              # the deprecated spelling of the channels argument
+              "nch_kw": ch > 1 and W.chance("nchannels-kw", 1, 4)}
       if spec["use_global"]:
         spec["chunk_size"] = gchunk
       specs.append(spec)
@@ -433,7 +435,9 @@ class C17(Property):
         if name == "play":
           spec = op[1]
           p = len(ctl["players"])
-          kw = {"dfmt": spec["dfmt"], "channels": spec["channels"]}
+          kw = {"dfmt": spec["dfmt"]}
+          kw["nchannels" if spec.get("nch_kw") else "channels"] = \
+            spec["channels"]
           if not spec.get("use_global"):
             kw["chunk_size"] = spec["chunk_size"]
           ctl["players"].append(None)
@@ -636,14 +640,27 @@ class C17(Property):
       st = th.stream
       cs, ch, fmt = spec["chunk_size"], spec["channels"], spec["dfmt"]
       per = cs * ch
+      # what the device believes it is receiving: the arguments of open()
+      okw = st.kwargs
+      dev_fmt = {1: "f", 2: "i", 8: "h", 16: "b", 32: "B"}.get(
+        okw.get("format"))
+      dev_ch = okw.get("channels")
+      if dev_fmt != fmt or dev_ch != ch or not okw.get("output") or \
+         okw.get("frames_per_buffer") != cs:
+        return V("framing", "device-opened-differently",
+                 "player%d asked for dfmt=%r channels=%d chunk_size=%d, the "
+                 "device stream was opened with %r"
+                 % (p, fmt, ch, cs, dict((k, okw[k]) for k in sorted(okw))))
       decoded = []
       for wi, (data, nframes) in enumerate(st.writes):
         if nframes != cs:
           return V("framing", "nframes", "player%d write %d: %r frames, "
                    "chunk_size %d" % (p, wi, nframes, cs))
-        if len(data) != per * SIZEOF[fmt]:
+        if len(data) != nframes * dev_ch * SIZEOF[dev_fmt]:
           return V("framing", "chunk-bytes", "player%d write %d: %d bytes, "
-                   "want %d" % (p, wi, len(data), per * SIZEOF[fmt]))
+                   "%d frames of %d channels of %r need %d"
+                   % (p, wi, len(data), nframes, dev_ch, dev_fmt,
+                      nframes * dev_ch * SIZEOF[dev_fmt]))
         decoded.extend(struct.unpack("%d%s" % (per, fmt), data))
       nwr = len(st.writes)
       if spec["kind"] in ("periodic", "rec"):
